@@ -183,6 +183,10 @@ fn edge_variants(schema: &SchemaModel, ty: &str) -> Vec<(String, Vec<(String, FV
                     continue;
                 }
                 out.push((f.name.clone(), vec![]));
+                if f.name == "opt" {
+                    // (the bare form above has an all-null parameter map)
+                    out.push((f.name.clone(), vec![("x".into(), values::i(1)), ("y".into(), FV::Null)]));
+                }
                 if f.name == "nb" {
                     out.push((f.name.clone(), vec![("tag".into(), FV::Null)]));
                     out.push((f.name.clone(), vec![("min".into(), values::i(2))]));
